@@ -3,9 +3,10 @@ CONSTANTS
   Component = "intersection"
   Precisions = {1, 4, 8, 12}
   NMixed = 0
-INVARIANT LawWellFormed
 INVARIANT LawIdempotent
 INVARIANT LawIdentityOnCarried
 INVARIANT LawPopulatedPreserved
+INVARIANT LawExpectedPopulated
 INVARIANT LawCarriedMonotone
 INVARIANT LawAccepts
+INVARIANT LawSchema
